@@ -31,3 +31,37 @@ Proof.
   destruct (Hphs p Hin) as (A&B&C&_). repeat split; assumption.
 Qed.
 Print Assumptions C07_held_proposals_are_consistent.
+
+(** ** The validator set a header names as its own (Proofs/MirrorVals.v)
+
+    "Names" is [valset_equal] - both hashes, the keys and the powers, i.e.
+    tmconsensus.ValidatorSet.Equal, which is what the kernel checks.  (Leibniz equality of the
+    model records would also compare the model-only flag [vs_ok], which [valset_equal] ignores.) *)
+From GV Require Import Proofs.MirrorCert Proofs.MirrorVals.
+
+(** Every header in the committed-header store names, as its own validator set, the set the chain
+    prescribes for its height: the genesis set at the initial height, otherwise the next set of the
+    header stored one height below. *)
+Theorem C07_committed_headers_name_chain_vals : forall ih ivs s,
+  1 <= ih -> vs_ok ivs = true -> reachable_b ih ivs s ->
+  forall h x cp, In (h, (x, cp)) (st_hdrs s) ->
+    valset_equal (hd_vals x) (chain_vals ih ivs (st_hdrs s) h) = true.
+Proof. exact committed_headers_name_chain_vals. Qed.
+Print Assumptions C07_committed_headers_name_chain_vals.
+
+(** Every proposed header held by the voting / next-round view (and by the committing view) names
+    the view's own validator set. *)
+Theorem C07_held_proposals_name_view_vals : forall ih ivs s,
+  1 <= ih -> vs_ok ivs = true -> reachable_b ih ivs s ->
+  (forall p, In p (v_phs (k_vot s)) -> valset_equal (hd_vals (ph_hdr p)) (v_vals (k_vot s)) = true) /\
+  (forall p, In p (v_phs (k_nxt s)) -> valset_equal (hd_vals (ph_hdr p)) (v_vals (k_nxt s)) = true) /\
+  (forall p, In p (v_phs (k_com s)) -> valset_equal (hd_vals (ph_hdr p)) (v_vals (k_com s)) = true).
+Proof. exact held_proposals_name_view_vals. Qed.
+Print Assumptions C07_held_proposals_name_view_vals.
+
+(** In particular the committing header. *)
+Theorem C07_committing_header_names_chain_vals : forall ih ivs s ch,
+  1 <= ih -> vs_ok ivs = true -> reachable_b ih ivs s -> k_chdr s = Some ch ->
+  valset_equal (hd_vals ch) (chain_vals ih ivs (st_hdrs s) (hd_height ch)) = true.
+Proof. exact committing_header_names_chain_vals. Qed.
+Print Assumptions C07_committing_header_names_chain_vals.
